@@ -219,7 +219,7 @@ func c12KeyClass(k any) string {
 
 func c12Paths(run *ev.Run) {
 	// expr_to_path goes through _eval (a full compile, ~12 ms): 16 sessions in parallel
-	n := run.Pick(6000, 1500000)
+	n := run.Pick(6000, 600000)
 	const batch = 100
 	nb := (n + batch - 1) / batch
 	ch := make(chan int, nb)
@@ -306,7 +306,7 @@ func c12Main(args []string) {
 	if !run.IsWorker() {
 		c12Paths(run)
 	}
-	jobs := treeJobs(run.Seed, run.Thorough(), run.Pick(1500, 300000))
+	jobs := treeJobs(run.Seed, run.Thorough(), run.Pick(1500, 60000))
 	if !run.Thorough() {
 		var keep []treeJob
 		for i, j := range jobs {
